@@ -235,6 +235,8 @@ impl Lst {
         }
     }
     fn apply(&mut self, op: &Op) -> Result<i64, String> {
+        PROGRESS.fetch_add(1, std::sync::atomic::Ordering::Relaxed);
+        *LAST_CALL.lock().unwrap() = format!("\"p\":{},\"op\":{}", self.par.json(), op.json());
         catch_unwind(AssertUnwindSafe(|| match *op {
             Op::Alloc { h, n } => self.fl(h).alloc(n) as i64,
             Op::AllocFrom { h, n, u } => self.fl(h).alloc_from_unit(n, u) as i64,
@@ -315,6 +317,7 @@ impl Proj {
 }
 
 fn project(l: &mut Lst, region: &Region) -> Proj {
+    PROGRESS.fetch_add(1, std::sync::atomic::Ordering::Relaxed);
     let (hwb, _lim, cur) = l.growth();
     let mut p = Proj { cur, hw: hwb / PAGE as i64, ..Default::default() };
     if hwb % PAGE as i64 != 0 {
@@ -614,7 +617,7 @@ fn explore(region: &Region) {
     let maxunits = arg_u64("maxunits", 6) as i32;
     let minunits = arg_u64("minunits", 1) as i32;
     let node_cap = arg_u64("nodecap", 4000) as usize;
-    let trace = Trace::new();
+    let trace = &TRACE;
     let mut hid = 0u64;
     let mut summary = vec![];
     // integer-array lists: units x grain x heads
@@ -628,7 +631,7 @@ fn explore(region: &Region) {
                 let cands: Vec<i32> = if units >= 4 { vec![2, units / 2 + 1] } else { vec![1] };
                 let par = Par { kind: Kind::Ia, max: units, grain, heads, ppb: 0, tp: 0 };
                 let d = if heads == 2 { depth.saturating_sub(1).max(2) } else { depth };
-                let (n, r) = explore_one(&trace, region, &mut hid, par, d, &cands, &[], node_cap);
+                let (n, r) = explore_one(trace, region, &mut hid, par, d, &cands, &[], node_cap);
                 summary.push(format!("ia u{} g{} h{}: {} states {} rows", units, grain, heads, n, r));
                 hid += 1;
             }
@@ -641,10 +644,11 @@ fn explore(region: &Region) {
         }
         let par = Par { kind: Kind::Rm, max, grain, heads, ppb: 1, tp: 1 };
         let steps = [1, 2, 3, 4, 6];
-        let (n, r) = explore_one(&trace, region, &mut hid, par, depth, &[2], &steps, node_cap);
+        let (n, r) = explore_one(trace, region, &mut hid, par, depth, &[2], &steps, node_cap);
         summary.push(format!("rm u{} g{} h{}: {} states {} rows", max, grain, heads, n, r));
         hid += 1;
     }
+    DONE.store(true, std::sync::atomic::Ordering::Relaxed);
     let n = trace.write_to(&out).expect("write trace");
     for s in summary {
         println!("{}", s);
@@ -817,7 +821,7 @@ fn random(region: &Region) {
     let maxunits = arg_u64("maxunits", 512);
     let every = arg_u64("every", 1) as usize;
     let mut rng = Rng::new(seed_from_env());
-    let trace = Trace::new();
+    let trace = &TRACE;
     let mut total = 0usize;
     for hid in 0..nhist {
         let kind = if rng.chance(2, 5) { Kind::Rm } else { Kind::Ia };
@@ -848,8 +852,9 @@ fn random(region: &Region) {
             }
         };
         let ev = if par.max <= 64 { 1 } else { every };
-        total += random_history(&trace, region, &mut rng, hid, par, nops, ev, chunk);
+        total += random_history(trace, region, &mut rng, hid, par, nops, ev, chunk);
     }
+    DONE.store(true, std::sync::atomic::Ordering::Relaxed);
     let n = trace.write_to(&out).expect("write trace");
     println!("ops={}", total);
     println!("rows={}", n);
@@ -959,7 +964,7 @@ fn grow(region: &Region) {
     let maxpages = arg_u64("maxpages", 12) as i64;
     let sample = arg_u64("sample", 1); // take every n-th tuple of the grid (1 = all)
     let mut rng = Rng::new(seed_from_env());
-    let trace = Trace::new();
+    let trace = &TRACE;
     let mut hid = 0u64;
     let mut tuples = 0u64;
     let mut crashed = 0u64;
@@ -1017,7 +1022,7 @@ fn grow(region: &Region) {
                                 };
                                 tuples += 1;
                                 hid += 1;
-                                if !grow_history(&trace, region, &mut rng, hid, par, policy) {
+                                if !grow_history(trace, region, &mut rng, hid, par, policy) {
                                     crashed += 1;
                                 }
                             }
@@ -1027,14 +1032,52 @@ fn grow(region: &Region) {
             }
         }
     }
+    DONE.store(true, std::sync::atomic::Ordering::Relaxed);
     let n = trace.write_to(&out).expect("write trace");
     println!("tuples={}", tuples);
     println!("ended_by_crash={}", crashed);
     println!("rows={}", n);
 }
 
+/// The recorded rows (global so that the watchdog can save them when the code under test hangs).
+static TRACE: Trace = Trace::new();
+static PROGRESS: std::sync::atomic::AtomicU64 = std::sync::atomic::AtomicU64::new(0);
+static DONE: std::sync::atomic::AtomicBool = std::sync::atomic::AtomicBool::new(false);
+static LAST_CALL: std::sync::Mutex<String> = std::sync::Mutex::new(String::new());
+
+/// A call of the code under test that does not return within `secs` seconds is a hang: the rows
+/// recorded so far plus a `Hang` row naming the call are written and the process exits with 3.
+fn watchdog(out: String, secs: u64) {
+    std::thread::spawn(move || {
+        let mut last = u64::MAX;
+        let mut still = 0;
+        loop {
+            std::thread::sleep(std::time::Duration::from_secs(1));
+            let now = PROGRESS.load(std::sync::atomic::Ordering::Relaxed);
+            if now == last {
+                still += 1;
+            } else {
+                still = 0;
+                last = now;
+            }
+            if DONE.load(std::sync::atomic::Ordering::Relaxed) {
+                return;
+            }
+            if still >= secs {
+                let call = LAST_CALL.lock().map(|c| c.clone()).unwrap_or_default();
+                let call = if call.is_empty() { "\"op\":{\"t\":\"none\"}".to_string() } else { call };
+                TRACE.push(format!("{{\"ev\":\"Hang\",\"secs\":{},{}}}", secs, call));
+                let _ = TRACE.write_to(&out);
+                println!("hang=1");
+                std::process::exit(3);
+            }
+        }
+    });
+}
+
 fn main() {
     let args: Vec<String> = std::env::args().collect();
+    watchdog(arg_or("out", "trace.ndjson"), arg_u64("hang", 60));
     std::panic::set_hook(Box::new(|_| {})); // panics of the code under test are data (Crash rows)
     let region = Region::new();
     match args.get(1).map(|s| s.as_str()).unwrap_or("") {
